@@ -239,6 +239,12 @@ func c05Exec(c *engine.Ctx, cs c05Case) {
 		if cs.Share {
 			t = sharedTree(t, map[string]geom.T{})
 		}
+		if g.NumOrdinates()%2 == 1 {
+			// WKT carries no SRID: one set on the geometry (here on every second case) changes nothing
+			if _, err := geom.SetSRID(t, 4326); err != nil {
+				panic(err)
+			}
+		}
 		var err error
 		failWKT(-1) // two-call history: a failed encode first (see poison.go)
 		if p, _ := engine.Guard(func() { text, err = wkt.Marshal(t) }); p != nil {
